@@ -119,7 +119,9 @@ class IlluminaExonCorrector:
             #if (i[0] == sh[0] or i[1] == sh[1]) and sh[0] >= exons[0][0] and sh[1] <= exons[-1][1] and self.counts[(sh[0]-1,sh[1])] > 100:
             
             # if the best single match differs by 4 it is usually good to correct
-            if ((i[0] == sh[0] and i[1] == sh[1]-4) or (i[1] == sh[1] and sh[0] == i[0]-4)):
+            # the corrected intron must stay strictly inside the read, otherwise a short terminal exon would vanish
+            if ((i[0] == sh[0] and i[1] == sh[1]-4) or (i[1] == sh[1] and sh[0] == i[0]-4)) and \
+                    sh[0] > exons[0][0] and sh[1] < exons[-1][1]:
             #if ((i[1] == sh[1]-4) or (sh[0] == i[0]-4)) and sh[0] >= exons[0][0] and sh[1] <= exons[-1][1]:
                 corrected_introns.append(sh)
                 appended = True
@@ -150,7 +152,8 @@ class IlluminaExonCorrector:
                                     right = x
                                     score = self.skipped_score(y, x, i)
                 # if the left intron has been changed the requirements have been fulfilled and a correction can happen
-                if not left == IlluminaExonCorrector.ABSENT_INTRON:
+                if not left == IlluminaExonCorrector.ABSENT_INTRON and \
+                        left[0] > exons[0][0] and right[1] < exons[-1][1]:
                     corrected_introns.append(left)
                     corrected_introns.append(right)
                     appended = True
